@@ -1,3 +1,433 @@
-(* Property C16 — list builtins obey their defining laws. (placeholder while building) *)
-From Coq Require Import List ZArith.
-From Vy Require Import Model.ListOps.
+(* Property C16 — list builtins obey their defining laws.
+   Only statements about Model/ListOps.v, each closed by `exact`, each followed by Print Assumptions.
+   The model is tied to vyxal/elements.py and vyxal/helpers.py by the correspondence of props/C16.py. *)
+From Coq Require Import List ZArith Bool Arith Lia Permutation Sorted.
+From Vy Require Import Model.ListOps Proofs.ListOpsProofs.
+Import ListNotations.
+Open Scope Z_scope.
+
+(* sort returns an ordered list ... *)
+Theorem C16_sort_ordered : forall l, Sorted Z.le (sort l).
+Proof. exact sort_sorted. Qed.
+Print Assumptions C16_sort_ordered.
+
+(* ... that is a permutation of its argument ... *)
+Theorem C16_sort_permutation : forall l, Permutation (sort l) l.
+Proof. exact sort_perm. Qed.
+Print Assumptions C16_sort_permutation.
+
+(* ... and it is the only such list *)
+Theorem C16_sort_unique : forall l s, Sorted Z.le s -> Permutation s l -> s = sort l.
+Proof. exact sort_unique. Qed.
+Print Assumptions C16_sort_unique.
+
+Theorem C16_sort_idempotent : forall l, sort (sort l) = sort l.
+Proof. exact sort_idempotent. Qed.
+Print Assumptions C16_sort_idempotent.
+
+(* reverse is list reversal, an involution *)
+Theorem C16_reverse_is_rev : forall l, reverse l = rev l.
+Proof. exact reverse_rev. Qed.
+Print Assumptions C16_reverse_is_rev.
+
+Theorem C16_reverse_involutive : forall l, reverse (reverse l) = l.
+Proof. exact reverse_involutive. Qed.
+Print Assumptions C16_reverse_involutive.
+
+Theorem C16_reverse_index : forall l i, (i < length l)%nat -> nth i (reverse l) 0 = nth (length l - S i) l 0.
+Proof. exact reverse_nth. Qed.
+Print Assumptions C16_reverse_index.
+
+(* uniquify: no duplicates, the same members, first occurrences in order *)
+Theorem C16_uniquify_nodup : forall l, NoDup (uniquify l).
+Proof. exact uniquify_NoDup. Qed.
+Print Assumptions C16_uniquify_nodup.
+
+Theorem C16_uniquify_members : forall l y, In y (uniquify l) <-> In y l.
+Proof. exact uniquify_In. Qed.
+Print Assumptions C16_uniquify_members.
+
+(* the result is exactly the items at the positions whose value does not occur earlier *)
+Theorem C16_uniquify_first_occurrences : forall l, uniquify l = first_occurrences l.
+Proof. exact uniquify_first_occurrences. Qed.
+Print Assumptions C16_uniquify_first_occurrences.
+
+Theorem C16_uniquify_fixes_nodup : forall l, NoDup l -> uniquify l = l.
+Proof. exact uniquify_idempotent_on_NoDup. Qed.
+Print Assumptions C16_uniquify_fixes_nodup.
+
+(* flatten is the concatenation of the leaves, left to right (relational definition, both directions) *)
+Theorem C16_flatten_leaves : forall t, leaves_of t (flatten t).
+Proof. exact flatten_leaves. Qed.
+Print Assumptions C16_flatten_leaves.
+
+Theorem C16_flatten_only_leaves : forall t l, leaves_of t l -> l = flatten t.
+Proof. exact leaves_functional. Qed.
+Print Assumptions C16_flatten_only_leaves.
+
+Theorem C16_flatten_flat : forall l, deep_flatten (map Leaf l) = l.
+Proof. exact deep_flatten_flat. Qed.
+Print Assumptions C16_flatten_flat.
+
+Theorem C16_flatten_app : forall a b, deep_flatten (a ++ b) = deep_flatten a ++ deep_flatten b.
+Proof. exact deep_flatten_app. Qed.
+Print Assumptions C16_flatten_app.
+
+(* sum is the right fold of + from 0 (also on the empty list) *)
+Theorem C16_sum_fold : forall l, vsum l = fold_right Z.add 0 l.
+Proof. exact vsum_fold. Qed.
+Print Assumptions C16_sum_fold.
+
+(* product is the fold of * from 1 on NON-EMPTY lists; the implementation (and the model) return 0 on [] *)
+Theorem C16_product_fold : forall l, l <> [] -> product l = fold_right Z.mul 1 l.
+Proof. exact product_fold. Qed.
+Print Assumptions C16_product_fold.
+
+(* the empty product is 0, not 1: known finding C16-product-empty *)
+Theorem C16_product_empty_refuted : exists l, product l <> fold_right Z.mul 1 l.
+Proof. exact product_empty_refuted. Qed.
+Print Assumptions C16_product_empty_refuted.
+
+(* max / min: a member bounding all members; no value exactly on the empty list *)
+Theorem C16_maximum_spec : forall l, l <> [] -> exists m, maximum l = Some m /\ In m l /\ Forall (fun y => y <= m) l.
+Proof. exact maximum_spec. Qed.
+Print Assumptions C16_maximum_spec.
+
+Theorem C16_minimum_spec : forall l, l <> [] -> exists m, minimum l = Some m /\ In m l /\ Forall (fun y => m <= y) l.
+Proof. exact minimum_spec. Qed.
+Print Assumptions C16_minimum_spec.
+
+Theorem C16_maximum_fold : forall x r, maximum (x :: r) = Some (fold_left Z.max r x).
+Proof. exact maximum_fold. Qed.
+Print Assumptions C16_maximum_fold.
+
+Theorem C16_minimum_fold : forall x r, minimum (x :: r) = Some (fold_left Z.min r x).
+Proof. exact minimum_fold. Qed.
+Print Assumptions C16_minimum_fold.
+
+Theorem C16_maximum_empty : forall l, maximum l = None <-> l = [].
+Proof. exact maximum_none. Qed.
+Print Assumptions C16_maximum_empty.
+
+Theorem C16_minimum_empty : forall l, minimum l = None <-> l = [].
+Proof. exact minimum_none. Qed.
+Print Assumptions C16_minimum_empty.
+
+(* cumulative sums: as many as items, the i-th is the sum of the first i+1 items *)
+Theorem C16_cumsum_length : forall l, length (cumsum l) = length l.
+Proof. exact cumsum_length. Qed.
+Print Assumptions C16_cumsum_length.
+
+Theorem C16_cumsum_index : forall l i, (i < length l)%nat -> nth i (cumsum l) 0 = vsum (firstn (S i) l).
+Proof. exact cumsum_nth. Qed.
+Print Assumptions C16_cumsum_index.
+
+(* deltas: adjacent differences (next minus previous) *)
+Theorem C16_deltas_length : forall l, length (deltas l) = pred (length l).
+Proof. exact deltas_length. Qed.
+Print Assumptions C16_deltas_length.
+
+Theorem C16_deltas_index : forall l i, (S i < length l)%nat -> nth i (deltas l) 0 = nth (S i) l 0 - nth i l 0.
+Proof. exact deltas_nth. Qed.
+Print Assumptions C16_deltas_index.
+
+Theorem C16_deltas_of_cumsum : forall l, deltas (cumsum l) = tl l.
+Proof. exact deltas_cumsum. Qed.
+Print Assumptions C16_deltas_of_cumsum.
+
+Theorem C16_cumsum_of_deltas : forall l, l <> [] -> cumsum (head l :: deltas l) = l.
+Proof. exact cumsum_deltas. Qed.
+Print Assumptions C16_cumsum_of_deltas.
+
+(* zip: as long as the longer argument, the i-th pair holds the i-th items, 0 where one is missing *)
+Theorem C16_zip_length : forall a b, length (zip a b) = Nat.max (length a) (length b).
+Proof. exact zip_length. Qed.
+Print Assumptions C16_zip_length.
+
+Theorem C16_zip_index : forall a b i, nth i (zip a b) (0, 0) = (nth i a 0, nth i b 0).
+Proof. exact zip_nth. Qed.
+Print Assumptions C16_zip_index.
+
+(* transpose of a rectangular matrix: entry (j, i) is entry (i, j); shape swapped; involution *)
+Theorem C16_transpose_rectangular : forall rows m i j, Forall (fun r => length r = m) rows -> (i < length rows)%nat -> (j < m)%nat -> nth i (nth j (transpose rows) []) 0 = nth j (nth i rows []) 0.
+Proof. exact transpose_nth. Qed.
+Print Assumptions C16_transpose_rectangular.
+
+Theorem C16_transpose_shape : forall rows m, rows <> [] -> Forall (fun r => length r = m) rows -> length (transpose rows) = m /\ Forall (fun c => length c = length rows) (transpose rows).
+Proof. exact transpose_shape. Qed.
+Print Assumptions C16_transpose_shape.
+
+Theorem C16_transpose_involutive : forall rows m, rows <> [] -> (0 < m)%nat -> Forall (fun r => length r = m) rows -> transpose (transpose rows) = rows.
+Proof. exact transpose_involutive. Qed.
+Print Assumptions C16_transpose_involutive.
+
+Theorem C16_transpose_length : forall rows, length (transpose rows) = max_len rows.
+Proof. exact transpose_length. Qed.
+Print Assumptions C16_transpose_length.
+
+(* interleave / uninterleave are mutual inverses (|b| <= |a| <= |b|+1 one way, always the other way) *)
+Theorem C16_uninterleave_interleave : forall a b, (length b <= length a <= S (length b))%nat -> uninterleave (interleave a b) = (a, b).
+Proof. exact uninterleave_interleave. Qed.
+Print Assumptions C16_uninterleave_interleave.
+
+Theorem C16_interleave_uninterleave : forall l, interleave (evens l) (odds l) = l.
+Proof. exact interleave_uninterleave. Qed.
+Print Assumptions C16_interleave_uninterleave.
+
+Theorem C16_uninterleave_slices : forall l i, nth i (evens l) 0 = nth (2 * i) l 0 /\ nth i (odds l) 0 = nth (2 * i + 1) l 0.
+Proof. exact uninterleave_slices. Qed.
+Print Assumptions C16_uninterleave_slices.
+
+Theorem C16_interleave_alternates : forall a b i, length a = length b -> nth (2 * i) (interleave a b) 0 = nth i a 0 /\ nth (2 * i + 1) (interleave a b) 0 = nth i b 0.
+Proof. exact interleave_nth. Qed.
+Print Assumptions C16_interleave_alternates.
+
+(* the rest of the longer argument is appended *)
+Theorem C16_interleave_leftover_left : forall a b c, length a = length b -> interleave (a ++ c) b = interleave a b ++ c.
+Proof. exact interleave_leftover_left. Qed.
+Print Assumptions C16_interleave_leftover_left.
+
+Theorem C16_interleave_leftover_right : forall a b c, length a = length b -> interleave a (b ++ c) = interleave a b ++ c.
+Proof. exact interleave_leftover_right. Qed.
+Print Assumptions C16_interleave_leftover_right.
+
+Theorem C16_interleave_permutation : forall a b, Permutation (interleave a b) (a ++ b).
+Proof. exact interleave_perm. Qed.
+Print Assumptions C16_interleave_permutation.
+
+(* wrap k (k > 0): the chunks concatenate back, all but the last have length k, the last is non-empty and not longer; k = 0 gives no chunk *)
+Theorem C16_wrap_concat : forall k l, (0 < k)%nat -> concat (wrap k l) = l.
+Proof. exact wrap_concat. Qed.
+Print Assumptions C16_wrap_concat.
+
+Theorem C16_wrap_chunks : forall k l, (0 < k)%nat -> Forall (fun c => length c = k) (removelast (wrap k l)) /\ Forall (fun c => (0 < length c <= k)%nat) (wrap k l).
+Proof. exact wrap_chunks. Qed.
+Print Assumptions C16_wrap_chunks.
+
+Theorem C16_wrap_zero : forall l, wrap 0 l = [].
+Proof. exact wrap_zero. Qed.
+Print Assumptions C16_wrap_zero.
+
+(* prefixes: the n non-empty prefixes, shortest first *)
+Theorem C16_prefixes_enumerated : forall l, prefixes l = map (fun i => firstn (S i) l) (seq 0 (length l)).
+Proof. exact prefixes_spec. Qed.
+Print Assumptions C16_prefixes_enumerated.
+
+Theorem C16_prefixes_members : forall l p, In p (prefixes l) <-> p <> [] /\ exists b, l = p ++ b.
+Proof. exact prefixes_In. Qed.
+Print Assumptions C16_prefixes_members.
+
+(* suffixes: the n non-empty suffixes, longest first *)
+Theorem C16_suffixes_enumerated : forall l, suffixes l = map (fun i => skipn i l) (seq 0 (length l)).
+Proof. exact suffixes_spec. Qed.
+Print Assumptions C16_suffixes_enumerated.
+
+Theorem C16_suffixes_members : forall l s, In s (suffixes l) <-> s <> [] /\ exists a, l = a ++ s.
+Proof. exact suffixes_In. Qed.
+Print Assumptions C16_suffixes_members.
+
+(* sublists: exactly the contiguous non-empty sublists, n(n+1)/2 of them *)
+Theorem C16_sublists_members : forall l s, In s (sublists l) <-> s <> [] /\ exists a b, l = a ++ s ++ b.
+Proof. exact sublists_In. Qed.
+Print Assumptions C16_sublists_members.
+
+Theorem C16_sublists_count : forall l, (2 * length (sublists l) = length l * (length l + 1))%nat.
+Proof. exact sublists_count. Qed.
+Print Assumptions C16_sublists_count.
+
+(* powerset: 2^n members, exactly the subsequences, distinct when the items are, [] first, in the order of the implementation's loop *)
+Theorem C16_powerset_count : forall l, length (powerset l) = (2 ^ length l)%nat.
+Proof. exact powerset_length. Qed.
+Print Assumptions C16_powerset_count.
+
+Theorem C16_powerset_members : forall l s, In s (powerset l) <-> subseq s l.
+Proof. exact powerset_In. Qed.
+Print Assumptions C16_powerset_members.
+
+Theorem C16_powerset_nodup : forall l, NoDup l -> NoDup (powerset l).
+Proof. exact powerset_NoDup. Qed.
+Print Assumptions C16_powerset_nodup.
+
+Theorem C16_powerset_loop_order : forall l, powerset_loop l = powerset l.
+Proof. exact powerset_loop_eq. Qed.
+Print Assumptions C16_powerset_loop_order.
+
+(* permutations: n! members, exactly the rearrangements, distinct when the items are *)
+Theorem C16_permutations_count : forall l, length (permutations l) = fact (length l).
+Proof. exact permutations_length. Qed.
+Print Assumptions C16_permutations_count.
+
+Theorem C16_permutations_members : forall l p, In p (permutations l) <-> Permutation l p.
+Proof. exact permutations_In. Qed.
+Print Assumptions C16_permutations_members.
+
+Theorem C16_permutations_nodup : forall l, NoDup l -> NoDup (permutations l).
+Proof. exact permutations_NoDup. Qed.
+Print Assumptions C16_permutations_nodup.
+
+(* cartesian product: |a||b| pairs, exactly the pairs of members, distinct when the items are; the anti-diagonal order of the implementation holds the same pairs *)
+Theorem C16_cartesian_count : forall a b, length (cart a b) = (length a * length b)%nat.
+Proof. exact cart_length. Qed.
+Print Assumptions C16_cartesian_count.
+
+Theorem C16_cartesian_members : forall a b x y, In (x, y) (cart a b) <-> In x a /\ In y b.
+Proof. exact cart_In. Qed.
+Print Assumptions C16_cartesian_members.
+
+Theorem C16_cartesian_nodup : forall a b, NoDup a -> NoDup b -> NoDup (cart a b).
+Proof. exact cart_NoDup. Qed.
+Print Assumptions C16_cartesian_nodup.
+
+Theorem C16_cartesian_diagonal_members : forall a b x y, In (x, y) (cart_diag a b) <-> In x a /\ In y b.
+Proof. exact cart_diag_In. Qed.
+Print Assumptions C16_cartesian_diagonal_members.
+
+(* count / contains / find *)
+Theorem C16_count_occurrences : forall x l, count x l = Z.of_nat (count_occ Z.eq_dec l x).
+Proof. exact count_count_occ. Qed.
+Print Assumptions C16_count_occurrences.
+
+Theorem C16_contains_member : forall x l, contains x l = true <-> In x l.
+Proof. exact contains_In. Qed.
+Print Assumptions C16_contains_member.
+
+Theorem C16_find_absent : forall x l, find x l = -1 <-> ~ In x l.
+Proof. exact find_absent. Qed.
+Print Assumptions C16_find_absent.
+
+Theorem C16_find_first_index : forall x l, In x l -> exists i, find x l = Z.of_nat i /\ nth_error l i = Some x /\ ~ In x (firstn i l).
+Proof. exact find_first. Qed.
+Print Assumptions C16_find_first_index.
+
+(* group consecutive: concatenates back, every group is a non-empty run of one value, neighbouring groups differ *)
+Theorem C16_group_concat : forall l, concat (group_consecutive l) = l.
+Proof. exact group_concat. Qed.
+Print Assumptions C16_group_concat.
+
+Theorem C16_group_runs : forall l, Forall run (group_consecutive l).
+Proof. exact group_runs. Qed.
+Print Assumptions C16_group_runs.
+
+Theorem C16_group_neighbours_differ : forall l, Sorted heads_differ (group_consecutive l).
+Proof. exact group_neighbours. Qed.
+Print Assumptions C16_group_neighbours_differ.
+
+(* counts: (x, count x) for the first occurrences; the counts add up to the length *)
+Theorem C16_counts_definition : forall l, counts l = map (fun x => (x, count x l)) (uniquify l).
+Proof. exact counts_def. Qed.
+Print Assumptions C16_counts_definition.
+
+Theorem C16_counts_members : forall l x c, In (x, c) (counts l) <-> In x l /\ c = count x l.
+Proof. exact counts_In. Qed.
+Print Assumptions C16_counts_members.
+
+Theorem C16_counts_total : forall l, vsum (map snd (counts l)) = Z.of_nat (length l).
+Proof. exact counts_total. Qed.
+Print Assumptions C16_counts_total.
+
+(* grade up / down: a permutation of the positions that sorts; equal items keep their order (stable) *)
+Theorem C16_grade_up_permutation : forall l, Permutation (grade_up l) (seq 0 (length l)).
+Proof. exact grade_up_perm. Qed.
+Print Assumptions C16_grade_up_permutation.
+
+Theorem C16_grade_up_sorts : forall l, map (value l) (grade_up l) = sort l.
+Proof. exact grade_up_sorts. Qed.
+Print Assumptions C16_grade_up_sorts.
+
+Theorem C16_grade_up_stable : forall l, StronglySorted (up_before l) (grade_up l).
+Proof. exact grade_up_stable. Qed.
+Print Assumptions C16_grade_up_stable.
+
+Theorem C16_grade_down_permutation : forall l, Permutation (grade_down l) (seq 0 (length l)).
+Proof. exact grade_down_perm. Qed.
+Print Assumptions C16_grade_down_permutation.
+
+Theorem C16_grade_down_sorts : forall l, map (value l) (grade_down l) = rev (sort l).
+Proof. exact grade_down_reverse_sort. Qed.
+Print Assumptions C16_grade_down_sorts.
+
+Theorem C16_grade_down_stable : forall l, StronglySorted (down_before l) (grade_down l).
+Proof. exact grade_down_stable. Qed.
+Print Assumptions C16_grade_down_stable.
+
+(* head, tail, head_remove, tail_remove, length *)
+Theorem C16_head_cons : forall l, l <> [] -> l = head l :: head_remove l.
+Proof. exact head_cons. Qed.
+Print Assumptions C16_head_cons.
+
+Theorem C16_tail_snoc : forall l, l <> [] -> l = tail_remove l ++ [tail l].
+Proof. exact tail_snoc. Qed.
+Print Assumptions C16_tail_snoc.
+
+Theorem C16_head_tail_empty : head [] = 0 /\ tail [] = 0 /\ head_remove [] = [] /\ tail_remove [] = [].
+Proof. exact head_tail_empty. Qed.
+Print Assumptions C16_head_tail_empty.
+
+Theorem C16_tail_is_last : forall l, tail l = last l 0.
+Proof. exact tail_last. Qed.
+Print Assumptions C16_tail_is_last.
+
+Theorem C16_tail_remove_is_removelast : forall l, tail_remove l = removelast l.
+Proof. exact tail_remove_removelast. Qed.
+Print Assumptions C16_tail_remove_is_removelast.
+
+Theorem C16_length_spec : forall l, length_ l = Z.of_nat (length l) /\ length_ (head_remove l) = Z.max 0 (length_ l - 1) /\ length_ (tail_remove l) = Z.max 0 (length_ l - 1).
+Proof. exact length_spec. Qed.
+Print Assumptions C16_length_spec.
+
+(* ---- non-vacuity: the hypotheses are satisfiable, the orders are the implementation's ---- *)
+Example C16_product_fold_nonvacuous : product [2; -3; 4] = -24 /\ [2; -3; 4] <> [].
+Proof. exact ex_product_fold_nonvacuous. Qed.
+Print Assumptions C16_product_fold_nonvacuous.
+
+Example C16_maximum_spec_nonvacuous : maximum [1; 3; 2] = Some 3 /\ minimum [1; 3; 2] = Some 1.
+Proof. exact ex_maximum_spec_nonvacuous. Qed.
+Print Assumptions C16_maximum_spec_nonvacuous.
+
+Example C16_uninterleave_interleave_nonvacuous : uninterleave (interleave [1; 2; 3] [4; 5]) = ([1; 2; 3], [4; 5]) /\ (length [4; 5] <= length [1; 2; 3] <= S (length [4; 5]))%nat.
+Proof. exact ex_uninterleave_interleave_nonvacuous. Qed.
+Print Assumptions C16_uninterleave_interleave_nonvacuous.
+
+Example C16_uninterleave_interleave_hypothesis_needed : uninterleave (interleave [1] [4; 5; 6]) <> ([1], [4; 5; 6]).
+Proof. exact ex_uninterleave_interleave_hypothesis_needed. Qed.
+Print Assumptions C16_uninterleave_interleave_hypothesis_needed.
+
+Example C16_wrap_nonvacuous : wrap 2 [1; 2; 3; 4; 5] = [[1; 2]; [3; 4]; [5]] /\ (0 < 2)%nat.
+Proof. exact ex_wrap_nonvacuous. Qed.
+Print Assumptions C16_wrap_nonvacuous.
+
+Example C16_transpose_nonvacuous : transpose [[1; 2; 3]; [4; 5; 6]] = [[1; 4]; [2; 5]; [3; 6]] /\ Forall (fun r => length r = 3%nat) [[1; 2; 3]; [4; 5; 6]].
+Proof. exact ex_transpose_nonvacuous. Qed.
+Print Assumptions C16_transpose_nonvacuous.
+
+Example C16_transpose_ragged_not_involutive : transpose (transpose [[1; 2]; [3]; [4; 5; 6]]) <> [[1; 2]; [3]; [4; 5; 6]].
+Proof. exact ex_transpose_ragged_not_involutive. Qed.
+Print Assumptions C16_transpose_ragged_not_involutive.
+
+Example C16_nodup_nonvacuous : NoDup [3; 1; 2] /\ length (permutations [3; 1; 2]) = 6%nat /\ length (powerset [3; 1; 2]) = 8%nat.
+Proof. exact ex_nodup_nonvacuous. Qed.
+Print Assumptions C16_nodup_nonvacuous.
+
+Example C16_permutations_order : permutations [3; 1; 2] = [[3; 1; 2]; [3; 2; 1]; [1; 3; 2]; [1; 2; 3]; [2; 3; 1]; [2; 1; 3]].
+Proof. exact ex_permutations_order. Qed.
+Print Assumptions C16_permutations_order.
+
+Example C16_find_nonvacuous : find 2 [1; 2; 1; 2] = 1 /\ find 7 [1; 2] = -1 /\ In 2 [1; 2; 1; 2].
+Proof. exact ex_find_nonvacuous. Qed.
+Print Assumptions C16_find_nonvacuous.
+
+Example C16_deltas_nonvacuous : deltas [3; 1; 2] = [-2; 1] /\ cumsum [3; 1; 2] = [3; 4; 6].
+Proof. exact ex_deltas_nonvacuous. Qed.
+Print Assumptions C16_deltas_nonvacuous.
+
+Example C16_grade_nonvacuous : grade_up [1; 1; 2; 1; 3; 2] = [0; 1; 3; 2; 5; 4]%nat /\ grade_down [1; 1; 2; 1; 3; 2] = [4; 2; 5; 0; 1; 3]%nat.
+Proof. exact ex_grade_nonvacuous. Qed.
+Print Assumptions C16_grade_nonvacuous.
+
+Example C16_cartesian_diagonal_order : cart_diag [1; 2] [4; 5; 6] = [(1, 4); (1, 5); (2, 4); (1, 6); (2, 5); (2, 6)].
+Proof. exact ex_cartesian_diagonal_order. Qed.
+Print Assumptions C16_cartesian_diagonal_order.
+
+Example C16_head_cons_nonvacuous : [5; 6] = head [5; 6] :: head_remove [5; 6] /\ [5; 6] = tail_remove [5; 6] ++ [tail [5; 6]].
+Proof. exact ex_head_cons_nonvacuous. Qed.
+Print Assumptions C16_head_cons_nonvacuous.
